@@ -84,9 +84,9 @@ PROPS = {
         "rule": "each run = (3/4) a logged-on session (role x buffer x interval) that first produces 0-30 outbound messages of mixed origin "
                 "(application sends, TestRequest echoes, Rejects, timer heartbeats), in a quarter of the runs then stays silent until the library's own TestRequest is outstanding, then receives 1-5 ResendRequests with ranges from {inside, single, "
                 "open-ended 16=0, to-last, end beyond last, wholly beyond, inverted, begin 0, all}; the peer-side wire log of first transmissions is the "
-                "reference model; in a third of the accepting runs a neighbour session with look-alike identifiers (LIB+PEER / LIBP+EER) shares the store and sends in between; or (1/4) a Logon whose 34 is drawn around the expected number on a fresh or pre-counted store; distinct = distinct "
+                "reference model; in a third of the accepting runs a neighbour session with look-alike identifiers (LIB+PEER / LIBP+EER) shares the store and sends in between; or (1/4) a Logon whose 34 is drawn around the expected number on a fresh store, a store pre-counted by hand, or a store that a real earlier session over the same stores has counted up (the request must start at the first missing number and carry a usable EndSeqNo); distinct = distinct "
                 "context-switch-sequence hash; non-trivial = a preemption happened; model_states_visited lists range shapes reached",
-        "mandatory_probes": ["resend_in_range", "logon_gap", "resend_while_probe_outstanding"],
+        "mandatory_probes": ["resend_in_range", "logon_gap", "resend_while_probe_outstanding", "logon_gap_after_earlier_session"],
         "assumptions": ASSUME,
     },
     "C15": {
